@@ -77,7 +77,7 @@ Lemma ensure_step max ti t :
 Proof.
   intros HI. destruct (ensure_index max ti t) as [ti' r] eqn:E.
   destruct (ensure_index_spec max ti t ti' r HI E) as (H1 & H2 & H3 & H4 & H5).
-  destruct r as [i|]; [|exact H5]. destruct H5 as [H5 H6]. repeat split; auto.
+  destruct r as [i|]; [|exact H5]. destruct H5 as [H5 H6]. split; [exact H1|]. split; [unfold ti_ext; auto|]. auto.
 Qed.
 
 (* matching a constant = comparing indexes *)
@@ -205,19 +205,19 @@ Proof.
   destruct (ensure_index max (g_ti st) (qs q)) as [ti1 [i_s|]].
   2:{ destruct S1 as [-> S1]. rewrite S1. inversion E; subst.
       destruct (ginv_set_ti fast max st (g_ti st) HI HT (ti_ext_refl _)) as [G1 G2].
-      repeat split; auto; simpl; intros; discriminate. }
+      split; [exact G1|]. split; [reflexivity|]. split; [intros _; split; [reflexivity | exact G2] | simpl; intros; discriminate]. }
   destruct S1 as (T1 & X1 & I1 & S1). rewrite S1.
   pose proof (ensure_step max ti1 (qp q) T1) as S2.
   destruct (ensure_index max ti1 (qp q)) as [ti2 [i_p|]].
   2:{ destruct S2 as [-> S2]. rewrite S2. inversion E; subst.
       destruct (ginv_set_ti fast max st ti1 HI T1 X1) as [G1 G2].
-      repeat split; auto; simpl; intros; discriminate. }
+      split; [exact G1|]. split; [reflexivity|]. split; [intros _; split; [reflexivity | exact G2] | simpl; intros; discriminate]. }
   destruct S2 as (T2 & X2 & I2 & S2). rewrite S2.
   pose proof (ensure_step max ti2 (qo q) T2) as S3.
   destruct (ensure_index max ti2 (qo q)) as [ti3 [i_o|]].
   2:{ destruct S3 as [-> S3]. rewrite S3. inversion E; subst.
       destruct (ginv_set_ti fast max st ti2 HI T2 (ti_ext_trans _ _ _ X1 X2)) as [G1 G2].
-      repeat split; auto; simpl; intros; discriminate. }
+      split; [exact G1|]. split; [reflexivity|]. split; [intros _; split; [reflexivity | exact G2] | simpl; intros; discriminate]. }
   destruct S3 as (T3 & X3 & I3 & S3). rewrite S3. cbn [fst snd].
   assert (X : ti_ext (g_ti st) ti3) by (eapply ti_ext_trans; [|exact X3]; eapply ti_ext_trans; eauto).
   assert (J1 : get_index ti3 (qs q) = Some i_s).
@@ -236,24 +236,19 @@ Proof.
     - intros x y. apply (f3_inj max); auto.
     - apply rows3_P3; auto. }
   destruct (set_insert t3 key3 row (g_spo st)) as [spo' ch] eqn:Eins.
+  destruct (set_insert_eq t3 key3 key3_inj row (g_spo st) spo' ch HS Eins) as (Hsorted & Hin' & Hflag & Hsame & Hadd).
   assert (Hch : ch = negb (memq q' (g_all st))).
-  { pose proof (set_insert_flag t3 key3 key3_inj row (g_spo st) HS) as Hf. rewrite Eins in Hf. simpl in Hf.
-    destruct ch, (memq q' (g_all st)); simpl; auto.
-    - exfalso. apply Hf; auto. apply Hmem; auto.
-    - assert (false = true); [|discriminate]. apply Hf. intros Hin. apply Hmem in Hin. discriminate. }
-  assert (Hspo' : spo' = fst (set_insert t3 key3 row (g_spo st))) by (rewrite Eins; reflexivity).
-  assert (Hsorted : ssorted key3 spo') by (rewrite Hspo'; apply set_insert_sorted; auto; apply key3_inj).
+  { destruct ch, (memq q' (g_all st)); simpl; auto.
+    - exfalso. apply Hflag; auto. apply Hmem; auto.
+    - assert (false = true); [|discriminate]. apply Hflag. intros Hin. apply Hmem in Hin. discriminate. }
   assert (Hrows : rows3_lt (tlen ti3) spo').
-  { intros a b c Hin. rewrite Hspo' in Hin. apply set_insert_in in Hin; [|apply key3_inj].
+  { intros a b c Hin. apply Hin' in Hin.
     destruct Hin as [Hin|Hin]; [unfold row in Hin; inversion Hin; subst; exact Prow | apply HR3; auto]. }
   assert (Hperm : Permutation (map (f3 ti3) spo')
                     (if memq q' (g_all st) then g_all st else g_all st ++ [q'])).
-  { rewrite Hch in Eins. destruct (memq q' (g_all st)) eqn:Em; simpl in Eins.
-    - pose proof (set_insert_false t3 key3 key3_inj row (g_spo st)) as Hf. rewrite Eins in Hf.
-      destruct (Hf eq_refl) as [Hf1 _]. simpl in Hf1. subst spo'. rewrite Habs. auto.
-    - pose proof (set_insert_true_perm t3 key3 row (g_spo st)) as Hf. rewrite Eins in Hf.
-      specialize (Hf eq_refl). simpl in Hf.
-      eapply perm_trans; [apply Permutation_map, Hf|]. simpl. rewrite Frow, Habs.
+  { destruct (memq q' (g_all st)) eqn:Em; simpl in Hch; subst ch.
+    - rewrite (Hsame eq_refl), Habs. auto.
+    - eapply perm_trans; [apply Permutation_map, (Hadd eq_refl)|]. simpl. rewrite Frow, Habs.
       apply Permutation_cons_append. }
   assert (Hgoal : forall st1, g_ti st1 = ti3 -> g_spo st1 = spo' ->
             (fast = true -> image_of key3 p_pos (g_pos st1) spo' /\ image_of key3 p_osp (g_osp st1) spo') ->
@@ -269,17 +264,10 @@ Proof.
     - intros _. split; [congruence|]. rewrite g_all_f3, E1, E2. exact Hperm. }
   destruct fast.
   - destruct (HF eq_refl) as [Ipos Iosp]. destruct ch.
-    + inversion E; subst st' r. apply Hgoal; auto. intros _. rewrite Hspo'. split.
-      * apply (image_insert t3 key3 key3_inj p_pos p_pos_inj (g_spo st) (g_pos st) row); auto.
-        rewrite Eins; auto.
-      * apply (image_insert t3 key3 key3_inj p_osp p_osp_inj (g_spo st) (g_osp st) row); auto.
-        rewrite Eins; auto.
-    + inversion E; subst st' r. apply Hgoal; auto.
-      * simpl. pose proof (set_insert_false t3 key3 key3_inj row (g_spo st)) as Hf. rewrite Eins in Hf.
-        destruct (Hf eq_refl) as [Hf1 _]. simpl in Hf1. auto.
-      * intros _. simpl.
-        pose proof (set_insert_false t3 key3 key3_inj row (g_spo st)) as Hf. rewrite Eins in Hf.
-        destruct (Hf eq_refl) as [Hf1 _]. simpl in Hf1. subst spo'. auto.
+    + inversion E; subst st' r. apply Hgoal; auto. intros _. split.
+      * apply (image_insert_eq t3 key3 key3_inj p_pos p_pos_inj (g_spo st) spo' (g_pos st) row); auto.
+      * apply (image_insert_eq t3 key3 key3_inj p_osp p_osp_inj (g_spo st) spo' (g_osp st) row); auto.
+    + inversion E; subst st' r. rewrite (Hsame eq_refl) in *. apply Hgoal; auto.
   - inversion E; subst st' r. apply Hgoal; auto. discriminate.
 Qed.
 
@@ -323,20 +311,16 @@ Proof.
     - intros x y. apply (f3_inj max); auto.
     - apply rows3_P3; auto. }
   destruct (set_remove t3 key3 row (g_spo st)) as [spo' ch] eqn:Erem.
-  assert (Hspo' : spo' = fst (set_remove t3 key3 row (g_spo st))) by (rewrite Erem; reflexivity).
+  destruct (set_remove_eq t3 key3 key3_inj row (g_spo st) spo' ch HS Erem) as (Hsorted & Hincl & Hflag & Hsame & Hp & Hnotin).
   assert (Hch : ch = memq q' (g_all st)).
-  { pose proof (set_remove_flag t3 key3 key3_inj row (g_spo st) HS) as Hf. rewrite Erem in Hf. simpl in Hf.
-    destruct ch, (memq q' (g_all st)); auto.
-    - symmetry. apply Hmem. apply Hf. auto.
-    - apply Hf. apply Hmem. auto. }
+  { destruct ch, (memq q' (g_all st)); auto.
+    - symmetry. apply Hmem. apply Hflag. auto.
+    - apply Hflag. apply Hmem. auto. }
   destruct ch.
   - (* present *)
-    pose proof (set_remove_true_perm t3 key3 key3_inj row (g_spo st)) as Hp. rewrite Erem in Hp.
-    specialize (Hp eq_refl). simpl in Hp.
-    assert (Hsorted : ssorted key3 spo') by (rewrite Hspo'; apply set_remove_sorted; auto; apply key3_inj).
+    specialize (Hp eq_refl).
     assert (Hrows : rows3_lt (tlen (g_ti st)) spo').
-    { intros a b0 c Hin. apply HR. rewrite Hspo' in Hin. eapply set_remove_incl; eauto. }
-    assert (Hnotin : ~ In row spo') by (rewrite Hspo'; apply set_remove_notin; auto; apply key3_inj).
+    { intros a b0 c Hin. apply HR. apply Hincl. auto. }
     assert (Hperm : Permutation (map (f3 (g_ti st)) spo') (filter (fun x => negb (quad_eqb q' x)) (g_all st))).
     { rewrite g_all_f3.
       eapply perm_trans; [|apply Permutation_filter, Permutation_map, Permutation_sym, Hp].
@@ -357,15 +341,12 @@ Proof.
       - rewrite g_all_f3, E1, E2. exact Hperm. }
     destruct fast.
     + destruct (HF eq_refl) as [Ipos Iosp]. inversion E; subst st' b. apply Hgoal; auto.
-      intros _. rewrite Hspo'. split.
-      * apply (image_remove t3 key3 key3_inj p_pos p_pos_inj (g_spo st) (g_pos st) row); auto.
-        rewrite Erem; auto.
-      * apply (image_remove t3 key3 key3_inj p_osp p_osp_inj (g_spo st) (g_osp st) row); auto.
-        rewrite Erem; auto.
+      intros _. split.
+      * apply (image_remove_eq t3 key3 key3_inj p_pos p_pos_inj (g_spo st) spo' (g_pos st) row); auto.
+      * apply (image_remove_eq t3 key3 key3_inj p_osp p_osp_inj (g_spo st) spo' (g_osp st) row); auto.
     + inversion E; subst st' b. apply Hgoal; auto. discriminate.
   - (* absent: nothing changes *)
-    pose proof (set_remove_false t3 key3 row (g_spo st)) as Hf. rewrite Erem in Hf.
-    specialize (Hf eq_refl). simpl in Hf. subst spo'.
+    rewrite (Hsame eq_refl) in *.
     assert (st' = st /\ b = false).
     { destruct fast; inversion E; subst; split; auto. destruct st; reflexivity. }
     destruct H as [-> ->]. apply Hnot. auto.
